@@ -35,42 +35,51 @@ def mass_aware(term) -> list:
 
 def check(eng, res):
     res.doc("R-PICK-MASS", "the backward slice of the component pick's probability vector in the ensemble generator contains a mass-aware source")
-    res.doc("R-PICK-FRACTION", "the probability vector contains the declared share of every component (one traversal, index-aligned) and is divided by its own sum")
-    fi = eng.prog.func("system.System.generator")
+    res.doc("R-PICK-FRACTION", "the probability vector contains the declared share of every component (one traversal, index-aligned) and is divided by its own sum; only picked components are generated")
+    n = 0
+    for q, ensemble in (("system.System.generator", True), ("system.System.generate", False)):
+        n += _pick(eng, res, eng.prog.func(q), ensemble)
+    res.floor("R-PICK-FRACTION", n, 2)
+    res.assumptions += ["components are generated independently per pick (R-MEMBER, C13)"]
+    res.not_decided += ["convergence of mass shares (statistical)", "that a repaired, mass-aware law converges to the declared composition"]
+
+
+def _pick(eng, res, fi, ensemble: bool) -> int:
     res.unit(fi)
     flow = eng.flow(fi)
     cfg = flow.cfg
     ch = calls(fi, "choice")
     if len(ch) != 1:
         # a pick that is not an i.i.d. draw at all (e.g. deficit driven): look for mass-aware selection
-        res.ob("R-PICK-MASS", fi, "p-argument of the component pick", "component selection in the ensemble generator", fi.node, False,
+        res.ob("R-PICK-MASS" if ensemble else "R-PICK-FRACTION", fi, "p-argument of the component pick", "component selection by one weighted random pick", fi.node, False,
                f"{len(ch)} rng.choice call(s): component pick not identified")
-        return
+        return 0
     c = ch[0]
     at = cfg.node_of(c)
     p = kwarg(c, "p")
     if p is None:
         res.ob("R-PICK-FRACTION", fi, "p-argument of the component pick", "the pick is weighted by the declared shares", c, False,
                "rng.choice without p=: components are picked uniformly, whatever was declared")
-        return
-    full = flow.expand(p, at, depth=14)  # full backward slice incl. loop-carried definitions
-    srcs = mass_aware(full)
-    res.ob(
-        "R-PICK-MASS",
-        fi,
-        "p-argument of the component pick",
-        "the pick law reads masses (generated weight, heavy-atom mass, accumulated per-component mass or a mean-mass estimate)",
-        c,
-        bool(srcs),
-        f"p = {src(flow.expand_ssa(p, at))[:160]}: sources are the declared percentages only — mass shares converge to p_i*m_i/Σ p_j*m_j, not to the declaration",
-    )
+        return 0
+    if ensemble:
+        full = flow.expand(p, at, depth=14)  # full backward slice incl. loop-carried definitions
+        srcs = mass_aware(full)
+        res.ob(
+            "R-PICK-MASS",
+            fi,
+            "p-argument of the component pick",
+            "the pick law reads masses (generated weight, heavy-atom mass, accumulated per-component mass or a mean-mass estimate)",
+            c,
+            bool(srcs),
+            f"p = {src(flow.expand_ssa(p, at))[:160]}: sources are the declared percentages only — mass shares converge to p_i*m_i/Σ p_j*m_j, not to the declaration",
+        )
     # ---- R-PICK-FRACTION
     ok_norm, why = c08.normalised(flow, p, at)
     res.ob("R-PICK-FRACTION", fi, "normalised", "p is divided by its own sum", c, ok_norm, why)
     t = flow.expand_ssa(p, at)
     comps = [n for n in ast.walk(t) if isinstance(n, ast.ListComp)]
     ok = False
-    why2 = "no traversal of the component list in p"
+    why2 = f"no traversal of this system's component list in p (p = {src(t)[:80]})"
     for lc in comps:
         if c13._one_traversal_of_molecules(lc):
             elt = src(lc.elt)
@@ -80,11 +89,19 @@ def check(eng, res):
                 why2 = f"shares: {elt} of every component"
             else:
                 why2 = f"traversal collects {elt}, not the declared share"
-    res.ob("R-PICK-FRACTION", fi, "declared-shares", "p contains the declared share (relative or absolute mass) of every component, in component order", c, ok, why2)
+    res.ob("R-PICK-FRACTION", fi, "declared-shares", "p contains the declared share (relative or absolute mass) of every component of this system, in component order", c, ok, why2)
     cand = flow.expand_ssa(c.args[0], at) if c.args else None
     okc = cand is not None and isinstance(cand, ast.Call) and callee_name(cand) == "range" and cand.args and any(
         norm(cand.args[0]) == norm(ast.parse(f"len({src(lc)})", mode="eval").body) for lc in comps
     )
     res.ob("R-PICK-FRACTION", fi, "aligned-candidates", "the drawn number indexes the same traversal that produced p", c, okc, f"candidates {src(cand)[:80] if cand is not None else None}")
-    res.assumptions += ["components are generated independently per pick (R-MEMBER, C13)"]
-    res.not_decided += ["convergence of mass shares (statistical)", "that a repaired, mass-aware law converges to the declared composition"]
+    # every molecule generated here is generated from the picked component (no forced / extra members)
+    gens = [g for g in calls(fi, "generate") if isinstance(g.func, ast.Attribute)]
+    bad = []
+    for g in gens:
+        recv = flow.expand_ssa(g.func.value, cfg.node_of(g))
+        if not (isinstance(recv, ast.Subscript) and src(recv.value) == "self._molecules" and isinstance(recv.slice, ast.Call) and callee_name(recv.slice) == "choice"):
+            bad.append(f"line {g.lineno}: {src(recv)[:60]}.generate(…)")
+    res.ob("R-PICK-FRACTION", fi, "only-picked-components", "every molecule generated here is generated from the component the weighted pick selected", gens[0] if gens else fi.node, bool(gens) and not bad,
+           "; ".join(bad) if bad else "no generate call")
+    return 1
